@@ -158,6 +158,20 @@ CHECKS = {
         "their argument preconditions as obligations; termination of the elliptic loops and the inside of the triangle kernel are not decided.",
         design="3/C15",
     ),
+    "C12": dict(
+        engine="E2",
+        technique="symbolic execution of every real wrapper at X and at s*X inside one path (s symbolic in [1e-9,1e9], or from a list of powers of "
+        "ten for three heavy wrappers in the quick tier); every evaluated branch condition is logged by source site and the solver is asked "
+        "for an input on which the two logs differ; exact scaling laws of the algebraic kernels as SMT obligations",
+        text="Bounded symbolic model checking of the piece structure: for all real inputs the masks / branch decisions of each wrapper are the "
+        "same at X and at s*X (this is where absolute tolerances hide and needs no transcendental reasoning), with atan2 homogeneity lemma "
+        "instances; Dipole ~ s^-3, Sphere ~ s^0, Polyline ~ s^-1 are proved for the values. Divergences are replayed in doubles at both "
+        "scales and reported only if the outputs differ by more than 1e-6 relative.",
+        note="Real arithmetic; known finding: CylinderSegment's absolute tolerances (close() atol, 1e-14 slabs) - recorded, any other scale dependence "
+        "of that wrapper is still reported; the triangle kernel's switch is decided on a stated sub-domain (near an edge extension) and attempted on "
+        "the full domain; value laws of log/atan2/elliptic kernels and TriangularMesh validation (see C16) are not decided here.",
+        design="3/C12",
+    ),
 }
 
 NOT_APPLICABLE = {
